@@ -496,9 +496,15 @@ func runC17(c *Check, w *World) {
 		fn := FuncName(f)
 		fs := fieldStores(tb, f, "OCRAInput")
 		order := []string{"Counter", "Challenge", "Password", "SessionInfo", "Timestamp"}
+		tableRows := hexFieldTable(tb, f) // the table-driven form: rows (text, &input.Field) walked by one loop
 		for i, fld := range order {
 			want := fmt.Sprintf("extract(0; call(encoding/hex.DecodeString; param(%s#%d)))", fn, i)
 			sts := fs[fld]
+			if len(sts) == 0 && tableRows != nil {
+				src, ok := tableRows[fld]
+				c.Decide(ok && src == fmt.Sprintf("param(%s#%d)", fn, i), "R17.6", fn, "field:"+fld, fld+" ← hex bytes of argument "+fmt.Sprint(i+1)+" (table row: the loop decodes row.text into *row.field)", fld+"'s table row decodes "+clip(src, 120)+", not argument "+fmt.Sprint(i+1), w.Pos(f.Pos()))
+				continue
+			}
 			if len(sts) == 0 {
 				c.Bad("R17.6", fn, "field:"+fld, "the "+fld+" field is never set", w.Pos(f.Pos()))
 				continue
@@ -534,6 +540,9 @@ func runC17(c *Check, w *World) {
 				gated[h.Call] = true
 				gateDominates(c, w, "R17.6", h.Fn, h.Call, "hex.DecodeString")
 			}
+		}
+		if tableRows != nil && len(tableRows) == 5 && n == 1 {
+			n = 5 // one decode site walked over the five table rows
 		}
 		c.Decide(n == 5, "R17.6", fn, "five-decodes", "each of the five arguments is decoded once", fmt.Sprintf("%d hex decodes, expected five", n), w.Pos(f.Pos()))
 	}
@@ -575,6 +584,70 @@ func init() {
 		thorough: []Config{CfgNative, Cfg386},
 		run:      runC17,
 	})
+}
+
+// hexFieldTable recognises "for _, r := range rows { …; b, err := hex.DecodeString(r.text); …; *r.dst = b }" over a
+// local array literal rows of (…, text string, dst *[]byte): the single store through the row's pointer writes the
+// decode of the same row's text. It returns, per OCRAInput field the row's pointer designates, the row's text term.
+func hexFieldTable(tb *TB, f *ssa.Function) map[string]string {
+	var out map[string]string
+	EachInstr(f, func(in ssa.Instruction) {
+		st, ok := in.(*ssa.Store)
+		if !ok || out != nil {
+			return
+		}
+		at := tb.Of(st.Addr)
+		vt := tb.Of(st.Val)
+		// *row.dst = extract(0; DecodeString(row.text)), both fields of the same indexed row of one array
+		if at.Op != "field" || len(at.Args) != 1 || at.Args[0].Op != "index" {
+			return
+		}
+		row := at.Args[0]
+		if vt.Op != "extract" || vt.Sym != "0" || vt.Args[0].Op != "call" || vt.Args[0].Sym != "encoding/hex.DecodeString" || len(vt.Args[0].Args) != 1 {
+			return
+		}
+		txt := vt.Args[0].Args[0]
+		if txt.Op != "field" || len(txt.Args) != 1 || txt.Args[0].String() != row.String() || row.Args[0].Op != "mem" {
+			return
+		}
+		// the array: the local whose content the row is indexed from
+		var arr *ssa.Alloc
+		var arrT *Term
+		EachInstr(f, func(x ssa.Instruction) {
+			if a, ok := x.(*ssa.Alloc); ok {
+				t := tb.Of(a)
+				if t.Op == "alloc" && t.Sym+"." == row.Args[0].Sym {
+					arr, arrT = a, t
+				}
+			}
+		})
+		if arr == nil {
+			return
+		}
+		saved := tb.curLoad
+		tb.curLoad = nil
+		defer func() { tb.curLoad = saved }()
+		res := map[string]string{}
+		for k := 0; k < 32; k++ {
+			r := fmt.Sprintf("[%d]", k)
+			d := tb.cellContent(arr, arrT, []string{r, at.Sym}, nil)
+			x := tb.cellContent(arr, arrT, []string{r, txt.Sym}, nil)
+			if d.Op == "zero" {
+				break
+			}
+			if d.Op != "faddr" || len(d.Args) != 1 || d.Args[0].Op != "alloc" {
+				return
+			}
+			if _, dup := res[d.Sym]; dup {
+				return
+			}
+			res[d.Sym] = x.String()
+		}
+		if len(res) > 0 {
+			out = res
+		}
+	})
+	return out
 }
 
 // shortBy: over the grid W in 0..12, L in 0..W+8 the linear terms behave like "L < W" (cond, may be nil) and
